@@ -133,12 +133,12 @@ func GenGrammar(t *rapid.T, o GenOpts) *Grammar {
 		if o.SkWeights != nil {
 			sk = o.SkWeights[rapid.IntRange(0, len(o.SkWeights)-1).Draw(t, "skeleton")]
 		} else {
-			sk = rapid.IntRange(0, 6).Draw(t, "skeleton") // 0 none 1 direct 2 hidden 3 ring 4 hidden ring 5 right/centre 6 precedence tower
+			sk = rapid.IntRange(0, 7).Draw(t, "skeleton") // 0 none 1 direct 2 hidden 3 ring 4 hidden ring 5 right/centre 6 precedence tower 7 ring through optional references
 		}
 		if sk == 6 {
 			return genTower(t, o)
 		}
-		if (sk == 3 || sk == 4) && n >= 2 {
+		if (sk == 3 || sk == 4 || sk == 7) && n >= 2 {
 			for i := range g.Layer {
 				g.Layer[i] = 0
 			}
@@ -237,8 +237,19 @@ func GenGrammar(t *rapid.T, o GenOpts) *Grammar {
 		g.Rules[i] = gen(i, 0, false)
 	}
 	if o.Skeleton && sk != 0 {
-		prefix := func() *Expr {
-			switch rapid.IntRange(0, 4).Draw(t, "prefix") {
+		prefix := func(i int) *Expr {
+			// references that may stand in a positive position of rule i
+			var ok []int
+			for j := 0; j < n; j++ {
+				if g.Layer[j] <= g.Layer[i] {
+					ok = append(ok, j)
+				}
+			}
+			switch rapid.IntRange(0, 6).Draw(t, "prefix") {
+			case 5: // an optional nonterminal: its curtailment must reach the enclosing rule
+				return &Expr{K: KOpt, Kids: []*Expr{rf(ok[rapid.IntRange(0, len(ok)-1).Draw(t, "prefref")])}}
+			case 6:
+				return &Expr{K: KAny, Kids: []*Expr{rf(ok[rapid.IntRange(0, len(ok)-1).Draw(t, "prefref")]), {K: KEmpty}}}
 			case 0:
 				return &Expr{K: KOpt, Kids: []*Expr{term()}}
 			case 1:
@@ -259,7 +270,7 @@ func GenGrammar(t *rapid.T, o GenOpts) *Grammar {
 				head = []*Expr{rf(i)}
 				tail = rapid.IntRange(0, 5).Draw(t, "unit") != 0
 			case 2: // hidden: N -> nullable-prefix N rest
-				head = []*Expr{prefix(), rf(i)}
+				head = []*Expr{prefix(i), rf(i)}
 				tail = rapid.IntRange(0, 5).Draw(t, "unit") != 0
 			case 3: // indirect ring through all rules
 				if n >= 2 {
@@ -268,14 +279,27 @@ func GenGrammar(t *rapid.T, o GenOpts) *Grammar {
 				}
 			case 4: // indirect ring with hidden links
 				if n >= 2 {
-					head = []*Expr{prefix(), rf((i + 1) % n)}
+					head = []*Expr{prefix(i), rf((i + 1) % n)}
 					tail = rapid.IntRange(0, 3).Draw(t, "unit") != 0
+				}
+			case 7: // ring whose links are plain or optional references: A -> A x | B ; B -> A? b
+				if n >= 2 {
+					if rapid.Bool().Draw(t, "optlink") {
+						head = []*Expr{{K: KOpt, Kids: []*Expr{rf((i + 1) % n)}}}
+					} else {
+						head = []*Expr{rf((i + 1) % n)}
+						tail = rapid.IntRange(0, 2).Draw(t, "unit") != 0
+					}
+					if rapid.Bool().Draw(t, "selfalt") {
+						// plus a directly left-recursive alternative on the same rule
+						g.Rules[i] = &Expr{K: KAny, Kids: []*Expr{{K: KSeqOf, Kids: []*Expr{rf(i), term()}}, g.Rules[i]}}
+					}
 				}
 			case 5: // right / centre recursion: N -> rest N | rest N rest
 				head = []*Expr{term(), rf(i)}
 				tail = rapid.Bool().Draw(t, "centre")
 			}
-			if head == nil || (sk != 3 && sk != 4 && rapid.IntRange(0, 2).Draw(t, "skip") == 0) {
+			if head == nil || (sk != 3 && sk != 4 && sk != 7 && rapid.IntRange(0, 2).Draw(t, "skip") == 0) {
 				continue
 			}
 			kids := head
